@@ -699,6 +699,15 @@ func (ex *Exec) callBuiltin(fr *frame, fn *ssa.Builtin, args []Value) Value {
 // strlen returns a non-negative symbolic length for a symbolic string.
 func (ex *Exec) strlen(s *Term) *Term {
 	l := ex.ts.App("strlen", BV(64), s)
+	// a Go string length is a non-negative int
+	if ex.strlenSeen == nil {
+		ex.strlenSeen = map[*Term]bool{}
+	}
+	if !ex.strlenSeen[l] {
+		ex.strlenSeen[l] = true
+		ex.axioms++ // valid on every path: may be added during speculative evaluation
+		ex.addPC(ex.ts.Bin(OSLe, ex.ts.BVConst(0, 64), l))
+	}
 	return l
 }
 
